@@ -11,7 +11,6 @@ Every loop is bounded.  An exception out of `.parse()` is recorded in "raised" (
 violation is the caller's decision.
 """
 import os
-import traceback
 
 from hio.core.http import clienting, httping, serving
 
@@ -31,10 +30,23 @@ class StubRemoter:
 def hio_function(exc):
     """innermost frame of the traceback that is hio source -> function name"""
     name = "?"
-    for fs in traceback.extract_tb(exc.__traceback__):
-        if os.path.realpath(fs.filename).startswith(env.SRC + os.sep):
-            name = fs.name
+    tb = exc.__traceback__
+    while tb is not None:   # walk the frames directly: traceback.extract_tb would read source lines for every frame
+        code = tb.tb_frame.f_code
+        if _in_tree(code.co_filename):
+            name = code.co_name
+        tb = tb.tb_next
     return name
+
+
+_TREE = {}
+
+
+def _in_tree(filename):
+    r = _TREE.get(filename)
+    if r is None:
+        r = _TREE[filename] = os.path.realpath(filename).startswith(env.SRC + os.sep)
+    return r
 
 
 def _txt(x):
